@@ -1487,9 +1487,7 @@ class AbelianArray(BlockBase):
         )
 
     @classmethod
-    def from_blocks(
-        cls, blocks, duals, charge=None, symmetry=symmetry, **kwargs
-    ):
+    def from_blocks(cls, blocks, duals, charge=None, symmetry=None, **kwargs):
         """Create a block array from a dictionary of blocks and sequence of
         duals.
 
@@ -1554,7 +1552,7 @@ class AbelianArray(BlockBase):
         index_maps,
         duals,
         charge=None,
-        symmetry=symmetry,
+        symmetry=None,
         invalid_sectors="warn",
         **kwargs,
     ):
@@ -1584,7 +1582,7 @@ class AbelianArray(BlockBase):
         AbelianArray
         """
         # XXX: warn if invalid blocks are non-zero?
-        symmetry = cls.get_class_symmetry()
+        symmetry = cls.get_class_symmetry(symmetry)
 
         if charge is None:
             charge = symmetry.combine()
